@@ -564,12 +564,13 @@ const (
 	pGarbage
 	pBoundNeutral
 	pNameEscape
+	pExtraFamily
 	nKinds
 )
 
 var kindNames = []string{"identity", "sample-name", "help-name", "type-name", "type", "help", "label-name", "label-value", "value",
 	"value-neutral", "timestamp", "bucket-bound", "bucket-count", "quantile", "quantile-value", "sum-count", "drop-line", "dup-line",
-	"swap-lines", "whitespace-neutral", "garbage-line", "bound-neutral", "name-escape"}
+	"swap-lines", "whitespace-neutral", "garbage-line", "bound-neutral", "name-escape", "extra-family"}
 
 type perturb struct {
 	kind int
@@ -1234,11 +1235,12 @@ func newScrapeServer() *scrapeServer {
 // ---------------------------------------------------------------- the compare stream
 
 type world struct {
-	calls   int
-	skipped []string
-	r       *emit.Rng
-	srv     *scrapeServer
-	direct  []map[string]interface{}
+	metaChecks int
+	calls      int
+	skipped    []string
+	r          *emit.Rng
+	srv        *scrapeServer
+	direct     []map[string]interface{}
 }
 
 type regCtx struct {
@@ -1337,6 +1339,13 @@ func (w *world) compareCase(out *emit.Writer, c *regCtx, helper int, p perturb, 
 			f.Close()
 		}
 	}
+	if cls == 1 && names != nil {
+		// metamorphic: the diff must be the diff of the RESTRICTED sides, i.e. the same error text as for a
+		// gatherer that contains only the families named in the filter (same names, same expected text)
+		if what := w.restrictedDiffCheck(c, err, p.text, names); what != "" {
+			w.direct = append(w.direct, map[string]interface{}{"index": out.Len(), "what": what})
+		}
+	}
 	if cls == 1 && !looksLikeDiff(err) {
 		w.direct = append(w.direct, map[string]interface{}{"index": out.Len(), "what": "non-nil error without a +/- diff line: " + firstLine(err.Error())})
 	}
@@ -1358,6 +1367,27 @@ func (w *world) compareCase(out *emit.Writer, c *regCtx, helper int, p perturb, 
 		tags = append(tags, "registry:utf8-names")
 	}
 	out.Add(term, p.kind != pIdentity || mode != 0, tags...)
+}
+
+// restrictedDiffCheck compares the error text of a failing filtered comparison with the one obtained
+// from a pre-filtered gatherer.  Returns a description of the disagreement, or "".
+func (w *world) restrictedDiffCheck(c *regCtx, err error, expected string, names []string) string {
+	var pre []*dto.MetricFamily
+	for _, mf := range c.got {
+		if inNames(mf.GetName(), names) {
+			pre = append(pre, mf)
+		}
+	}
+	ref := testutil.GatherAndCompare(fixedGatherer{mfs: pre}, strings.NewReader(expected), names...)
+	w.metaChecks++
+	switch {
+	case ref == nil:
+		return "filtered comparison fails but the same comparison on a pre-filtered gatherer succeeds"
+	case ref.Error() != err.Error():
+		return fmt.Sprintf("diff of a filtered comparison is not the diff of the restricted sides (names %q): got %q..., pre-filtered gatherer gives %q...",
+			names, firstLine(err.Error()), firstLine(ref.Error()))
+	}
+	return ""
 }
 
 func firstLine(s string) string {
@@ -1399,6 +1429,15 @@ func (w *world) compareStream(dir string, scale int, regs []*regCtx) error {
 			k++
 			w.compareCase(out, c, helper, p, mode, proj0)
 		}
+		// the expected text contains a family that the gatherer does not have and that the filter names,
+		// while the gatherer has other families: the filter matches no (or not only) gathered families
+		for _, extra := range []string{"# HELP no_such_metric h\n# TYPE no_such_metric gauge\nno_such_metric 1\n",
+			"# TYPE no_such_metric counter\nno_such_metric{a=\"b\"} 2 1000\n"} {
+			for _, mode := range []int{5, 6, 0, 1} {
+				w.compareCase(out, c, k%4, perturb{pExtraFamily, c.names[0], c.text0 + extra}, mode, proj0)
+				k++
+			}
+		}
 		// names that differ only in characters which name escaping maps to '_' (never sampled away)
 		for _, p := range escapePerturbations(c) {
 			helper := k % 4
@@ -1410,6 +1449,7 @@ func (w *world) compareStream(dir string, scale int, regs []*regCtx) error {
 			w.compareCase(out, c, helper, p, mode, proj0)
 		}
 	}
+	out.Tag("metamorphic:restricted-diff-checks", w.metaChecks)
 	for _, f := range typeWords {
 		out.Tag("registry-has-type:"+f, 0)
 	}
@@ -1642,7 +1682,13 @@ func (w *world) malformedStream(dir string, scale int, regs []*regCtx) error {
 					changed = projAll(c.norm0, names) != projAll(normP, names)
 					ep = emit.Some(tableOf(normP, r, true))
 				}
-				cls := classify(testutil.ScrapeAndCompare(w.srv.srv.URL, strings.NewReader(p.text), names...))
+				serr := testutil.ScrapeAndCompare(w.srv.srv.URL, strings.NewReader(p.text), names...)
+				cls := classify(serr)
+				if cls == 1 && names != nil {
+					if what := w.restrictedDiffCheck(c, serr, p.text, names); what != "" {
+						w.direct = append(w.direct, map[string]interface{}{"index": out.Len(), "what": what})
+					}
+				}
 				out.Add(emit.Tup("0", "3", emit.I(p.kind), namesTerm(names), emit.Tup("0", "0", "0", "200"), c.bodyTab, ep, "()", emit.B(changed), emit.I(cls)),
 					true, "scrape:promhttp-"+tg.tag, "scrape:"+hasCounter, "kind:"+kindNames[p.kind], fmt.Sprintf("class:%d", cls), nameModeTags[mode])
 			}
